@@ -51,6 +51,9 @@ partial def parsePVal : Sexp → Option PVal
       | _ => none
     pure (.dict xs)
   | .list (.atom "list" :: xs) => do pure (.list (← xs.mapM parsePVal))
+  | .list [.atom "pair", .atom name, v] => do pure (.pair name (← parsePVal v))
+  | .list [.atom "keyed", k, v] => do pure (.keyed (← k.asInt?) (← parsePVal v))
+  | .list [.atom "nokey", v] => do pure (.nokey (← parsePVal v))
   | sx => (parseIVal sx).map PVal.atom
 end
 
@@ -59,6 +62,9 @@ partial def printPVal : PVal → String
   | .none => "(none)"
   | .list xs => "(list" ++ String.join (xs.map fun x => " " ++ printPVal x) ++ ")"
   | .dict kvs => "(dict" ++ String.join (kvs.map fun (k, v) => s!" ({k} {printPVal v})") ++ ")"
+  | .pair n v => s!"(pair {n} {printPVal v})"
+  | .keyed k v => s!"(keyed {k} {printPVal v})"
+  | .nokey v => s!"(nokey {printPVal v})"
 
 mutual
 partial def parseDop : Sexp → Dop
@@ -87,6 +93,28 @@ partial def parseDop : Sexp → Dop
     match field1? fs "item" with
     | some it => .eopField ((field1? fs "min").bind Sexp.asNat?) ((field1? fs "max").bind Sexp.asNat?) (parseDop it)
     | none => .unsupported
+  | .list (.atom "mux" :: fs) =>
+    match reqField fs "bytepos" Sexp.asNat?, field? fs "switch", field? fs "cases" with
+    | some bp, some sw, some cs =>
+      (match reqField sw "bytepos" Sexp.asNat?, field1? sw "dop" with
+       | some sbp, some sd =>
+         let cases := cs.mapM fun
+           | .list (.atom "case" :: cf) =>
+             (match (field1? cf "name").bind Sexp.asAtom?, (reqField cf "lower" parseIVal), (reqField cf "upper" parseIVal) with
+              | some n, some (.int lo), some (.int up) => some (MuxCaseD.mk n lo up ((field1? cf "struct").map parseDop))
+              | _, _, _ => none)
+           | _ => none
+         let dflt : Option (Option (String × Option Dop)) :=
+           match field? fs "default" with
+           | none => some none
+           | some df => (match (field1? df "name").bind Sexp.asAtom? with
+             | some n => some (some (n, (field1? df "struct").map parseDop))
+             | none => none)
+         (match cases, dflt with
+          | some cl, some d => .mux bp sbp ((field1? sw "bitpos").bind Sexp.asNat?) (parseDop sd) cl d
+          | _, _ => .unsupported)
+       | _, _ => .unsupported)
+    | _, _, _ => .unsupported
   | _ => .unsupported
 
 partial def parseParam : Sexp → Param
@@ -131,7 +159,12 @@ def Dop.supported : Dop → Bool
   | .dynLenField _ _ _ cd item => cd.supported && item.supported
   | .endMarkerField _ td item => td.supported && item.supported
   | .eopField _ _ item => item.supported
+  | .mux _ _ _ sd cases dflt => sd.supported && casesSupported cases &&
+      (match dflt with | some (_, some d) => d.supported | _ => true)
   | .unsupported => false
+def casesSupported : List MuxCaseD → Bool
+  | [] => true
+  | .mk _ _ _ st :: cs => (match st with | some d => d.supported | none => true) && casesSupported cs
 def PKind.supported : PKind → Bool
   | .physConst d _ | .value d _ | .lengthKey d => d.supported
   | .unsupported => false
